@@ -219,3 +219,59 @@ Proof.
   destruct gens as [|g0 gens]; destruct bi, be, bq, bs, bm, br, has_migrate, has_reply, replies;
     (apply (calls_of_run _ 3 300); [reflexivity | vm_compute; reflexivity]).
 Qed.
+
+(* ------------------------------------------------------------------------------------------ *)
+(* `EntryPoints::emit_default_entry_point` (entry_points.rs): what the default entry point of a kind consists of. *)
+Definition EPD : program :=
+  macro_fns ++
+  [rec_stub "crate_module" []; rec_stub "emit_result_type" ["msg_ty"; "custom_msg"; "error"];
+   rec_stub "emit_ctx_params" ["msg_ty"; "custom_query"]; rec_stub "emit_ctx_values" ["msg_ty"];
+   rec_stub "emit_ep_name" ["msg_ty"]; rec_stub "as_accessor_wrapper_name" ["msg_ty"]].
+
+Definition epd_self (name error generics reply : value) (replies : bool) : value :=
+  VRec "EntryPoints" [("name", name); ("error", error); ("attrs", VRec "EntryPointArgs" [("generics", generics)]);
+                      ("reply", reply); ("sv_features", VRec "SylviaFeatures" [("replies", VBool replies)])].
+
+Record ep_texts := { e_fn : string; e_plain : string; e_gen : string; e_turbo : string; e_cmsg : string; e_cquery : string;
+                     e_msg_reply : string; e_msg : string; e_disp_reply_new : string; e_disp_reply_legacy : string; e_disp : string;
+                     e_cw_std : string }.
+
+Definition contract_q (T : ep_texts) (name : value) (gens : list value) : value :=
+  match gens with [] => quote_v (e_plain T) [("name", name)] | _ => quote_v (e_gen T) [("name", name); ("attr_generics", VArr gens)] end.
+Definition turbofish_q (T : ep_texts) (name : value) (gens : list value) : value :=
+  match gens with [] => quote_v (e_plain T) [("name", name)] | _ => quote_v (e_turbo T) [("name", name); ("attr_generics", VArr gens)] end.
+
+(* the message parameter: the chain's Reply for the reply entry point, otherwise the contract's message accessor of THAT kind *)
+Definition ep_msg (T : ep_texts) (k : string) (name : value) (gens : list value) : value :=
+  if k =? "Reply" then quote_v (e_msg_reply T) [("sylvia", cm)]
+  else quote_v (e_msg T) [("contract", contract_q T name gens); ("sylvia", cm); ("associated_name", VCon "as_accessor_wrapper_name" [kind_v k])].
+(* the body: the reply dispatch / the legacy handler for reply, otherwise `msg.dispatch` with the context values of THAT kind *)
+Definition ep_dispatch (T : ep_texts) (k : string) (name reply : value) (gens : list value) (replies : bool) : value :=
+  if k =? "Reply" then
+    (if replies then quote_v (e_disp_reply_new T) [("contract_turbofish", turbofish_q T name gens)]
+     else quote_v (e_disp_reply_legacy T) [("contract_turbofish", turbofish_q T name gens); ("reply", reply)])
+  else quote_v (e_disp T) [("contract_turbofish", turbofish_q T name gens); ("values", VCon "emit_ctx_values" [kind_v k])].
+
+Definition default_entry_point_spec (T : ep_texts) (k : string) (name error reply : value) (gens : list value) (replies : bool) : value :=
+  let cmsg := quote_v (e_cmsg T) [("contract", contract_q T name gens); ("sylvia", cm)] in
+  let cquery := quote_v (e_cquery T) [("contract", contract_q T name gens); ("sylvia", cm)] in
+  quote_v (e_fn T)
+    [("sylvia", cm); ("cw_std", VCon "to_string" [quote_v (e_cw_std T) [("sylvia", cm)]]);
+     ("ep_name", VCon "emit_ep_name" [kind_v k]);
+     ("params", VCon "emit_ctx_params" [kind_v k; cquery]);
+     ("msg", ep_msg T k name gens);
+     ("result", VCon "emit_result_type" [kind_v k; cmsg; error]);
+     ("dispatch", ep_dispatch T k name reply gens replies)].
+
+Definition six_kinds := ["Instantiate"; "Exec"; "Query"; "Sudo"; "Migrate"; "Reply"].
+
+Theorem translated_default_entry_point :
+  exists T, forall k name error reply (gens : list value) (replies : bool), In k six_kinds ->
+    calls EPD 3 "EntryPoints::emit_default_entry_point" [epd_self name error (VArr gens) reply replies; kind_v k]
+      (CVal (default_entry_point_spec T k name error reply gens replies)).
+Proof.
+  eexists (Build_ep_texts _ _ _ _ _ _ _ _ _ _ _ _). intros k name error reply gens replies Hk.
+  unfold six_kinds in Hk. simpl in Hk.
+  destruct Hk as [<-|[<-|[<-|[<-|[<-|[<-|[]]]]]]]; destruct gens as [|g0 gens]; destruct replies;
+    (apply (calls_of_run _ 3 300); [reflexivity | vm_compute; reflexivity]).
+Qed.
